@@ -1,4 +1,5 @@
 import MsqProofs.Lemmas.TSpellM
+import MsqProofs.Lemmas.TSpellP
 /-!
 # C09 / C13 — spelling-generalised T-parse: the spellings the parser treats alike give the SAME tree
 
@@ -10,8 +11,9 @@ derived tables, sub-queries in expressions, any depth), `TQ.FragE3 d e` (express
 `!=` / `<>` (`sp.ne`), `AND` / `&&` (`sp.amp`), `OR` / `||` (`sp.bar`), `/` / `DIV` and `%` / `MOD` (`sp.word`, keyed by the operand
 after the operator), prefix `NOT` / `!` (`sp.bang`; Hive only: `SpOK.bang`), alias with / without `AS` (`sp.bareC` select items, `sp.bareT`
 FROM and JOIN items), `ASC` written or not (`sp.asc`), `LIMIT m, n` / `LIMIT n OFFSET m` (`sp.offs`), redundant brackets (`sp.ch`).
-`TSP.plainCh ch` is the printer's own spelling with bracket choice `ch`: `TSP.toksQ d (plainCh ch) q = TQ.toksQ d ch q` is NOT proved
-(`#guard`s below); `C03.tquery_ch` is the special case in which nothing but brackets is chosen.
+`TSP.plainCh ch` is the printer's own spelling with bracket choice `ch`: `TSP.toksQ d (plainCh ch) q = TQ.toksQ d ch q` (`C09.plain_is_printer`,
+Lemmas/TSpellP.lean), so `C03.tquery_ch` is the special case in which nothing but brackets is chosen (`C09.tquery_ch_instance`) and every
+admissible spelling parses like the printer's own token output (`C09.spelled_like_printed`).
 
 **Side conditions** `TSP.SpOK d sp` (Lemmas/TSpellM.lean): `bang` — `!` only for `d = HIVE`; `bareC` / `bareT` — an alias is written without `AS`
 only if it is no word that would continue the expression before it or that `_parse_alias_expression` refuses (`TSP.bareOK d a`: `DIV`, `MOD`,
@@ -536,3 +538,26 @@ theorem hive_skipNot_bang (r : List Tok) : skipNot .HIVE (opTok "!" :: r) = (tru
 /-- why it is never reached: `!` is a compute operator, so the compute loop in front of the keyword level always consumes it -/
 theorem bang_is_compute_operator : computeOp? (up (opTok "!").src) = some ("LOGICAL_INVERSION", 2) := by decide
 end C13
+
+
+/-! ### the printer's own spelling is one of the choices -/
+namespace C09
+/-- with the printer's own spellings the spelled printer is the token printer of Props/C03Q.lean -/
+theorem plain_is_printer (d : Gen.D) (ch : Expr → Bool) (q : Query) : TSP.toksQ d (TSP.plainCh ch) q = TQ.toksQ d ch q := TSP.plainQ d ch q
+theorem plain_is_printer_expr (d : Gen.D) (ch : Expr → Bool) (e : Expr) : TSP.toksE3 d (TSP.plainCh ch) e = TQ.toksE3 d ch e := TSP.plainE d ch e
+theorem spOK_plainCh {d : Gen.D} {ch : Expr → Bool} (hch : TQ.ChOK d ch) : TSP.SpOK d (TSP.plainCh ch) :=
+  TSP.spOK_of hch (fun e h => by simp [TSP.plainCh] at h) (fun c => by cases c.2 <;> rfl) (fun t a => by cases a <;> rfl)
+/-- `C03.tquery_ch` (hence `C03.tquery`) as the instance `sp = plainCh ch` of the spelling-generalised theorem -/
+theorem tquery_ch_instance (d : Gen.D) (ch : Expr → Bool) (hch : TQ.ChOK d ch) (q : Query) (hq : FragQ d q = true) (rest : List Tok)
+    (hr : stopsQ d rest = true) (fuel : Nat) (hfuel : 20 * sizeL (TQ.toksQ d ch q) + 9 ≤ fuel) :
+    pSelectStmt d fuel none (TQ.toksQ d ch q ++ rest) = .ok (q, rest) := by
+  rw [← plain_is_printer] at hfuel ⊢
+  exact tquery_spellings d _ (spOK_plainCh hch) q hq rest hr fuel hfuel
+/-- **every admissible spelling parses like the printer's own token output** `TQ.toksQ d noX q` (= the lexed printed text on the fragment
+of Props/C03L / C03QL) -/
+theorem spelled_like_printed (d : Gen.D) (sp : TSP.Sp) (hsp : TSP.SpOK d sp) (q : Query) (hq : FragQ d q = true) (rest : List Tok)
+    (hr : stopsQ d rest = true) :
+    pSelectStmt d (fuelFor (TSP.toksQ d sp q ++ rest)) none (TSP.toksQ d sp q ++ rest) =
+      pSelectStmt d (fuelFor (TQ.toksQ d noX q ++ rest)) none (TQ.toksQ d noX q ++ rest) := by
+  rw [tquery_spellings_entry_fuel d sp hsp q hq rest hr, C03.tquery_entry_fuel d q hq rest hr]
+end C09
